@@ -412,6 +412,34 @@ def rule_R1f(text, counts):
         counts["R1"] = counts.get("R1", 0) + 1
 
 
+def rule_R7(text, cfg, counts):
+    """with_state(|s| E) => { let s: &T = RO; E }   with_state_mut(|s| E) => { let s: &mut T = RW; E }
+       with_state(path) => path(RO)                  with_state_mut(path) => path(RW)"""
+    ro, rw, ty = cfg.get("ro"), cfg.get("rw"), cfg.get("type", "State")
+    while True:
+        m_ = mask(text)
+        m = re.search(r"\bwith_state(_mut)?\s*\(", m_)
+        if not m:
+            return text
+        is_mut = bool(m.group(1))
+        src = rw if is_mut else ro
+        if not src:
+            raise AnchorLost("R7: %s used but no %s binding configured" % ("with_state_mut" if is_mut else "with_state", "rw" if is_mut else "ro"))
+        o = m.end() - 1
+        c = match_close(m_, o)
+        inner = text[o + 1:c]
+        mc = re.match(r"\s*\|\s*(\w+)\s*\|\s*(.*)$", inner, re.S)
+        if mc:
+            name, body = mc.group(1), mc.group(2).rstrip()
+            if body.endswith(","):
+                body = body[:-1].rstrip()
+            rep = "{ let %s: &%s%s = %s; %s }" % (name, "mut " if is_mut else "", ty, src, body)
+        else:
+            rep = "%s(%s)" % (inner.strip().rstrip(","), src)
+        text = text[:m.start()] + rep + text[c + 1:]
+        counts["R7"] = counts.get("R7", 0) + 1
+
+
 def auto_rules(text, mode, counts):
     text = rule_R1(text, counts)
     text = rule_R1f(text, counts)
@@ -449,6 +477,7 @@ class Block:
         self.rewrites = []
         self.sigrewrites = []
         self.specrewrites = []
+        self.r7 = None
         self.head = []
         self.tail = []
 
@@ -540,6 +569,9 @@ def parse_template(tpl_text, base_dir=None, hashes=None):
             payload = []
             cur.inserts.append((word, anchor, int(a.get("nth", 1)), payload))
             target = payload
+        elif word == "r7":
+            cur.r7 = parse_attrs(rest)
+            target = None
         elif word in ("rewrite", "sigrewrite", "specrewrite"):
             m = re.match(r'(\S+)\s+"((?:[^"\\]|\\.)*)"\s*=>\s*"((?:[^"\\]|\\.)*)"\s*$', rest)
             if not m:
@@ -569,6 +601,8 @@ def weave_fn(it, blk, counts, rewrite_log):
     body = auto_rules(body, mode, counts)
     sig = apply_rewrites(sig, blk.sigrewrites, counts, rewrite_log)
     body = apply_rewrites(body, blk.rewrites, counts, rewrite_log)
+    if blk.r7:
+        body = rule_R7(body, blk.r7, counts)
     if blk.attrs.get("rename"):
         sig = re.sub(r"\bfn\s+%s\b" % re.escape(it["name"]), "fn " + blk.attrs["rename"], sig, count=1)
     # name the return value
@@ -762,6 +796,8 @@ def process_block(blk, emitted_items):
         counts["R8"] = 1
         sl = auto_rules(sl, a.get("mode"), counts)
         sl = apply_rewrites(sl, blk.rewrites, counts, rewrite_log)
+        if blk.r7:
+            sl = rule_R7(sl, blk.r7, counts)
         sl = apply_loops(sl, blk.loops)
         sl = apply_anchor_inserts(sl, blk.inserts)
         head = "\n".join(blk.head)
